@@ -84,7 +84,7 @@ def analyse(cfg, body, policy=None, args=(), eng=None):
     nf.Norm.eng = eng
     an = terms.Analysis(eng, policy or SeqPolicy())
     raw = an.run(body, list(args))
-    out = [NPath(p, nf.Norm(env=getattr(p, "env", None))) for p in raw]
+    out = [NPath(p, nf.Norm(env=getattr(p, "env", None), envs=getattr(p, "envs", None))) for p in raw]
     return [p for p in out if p.feasible], nf.Norm()
 
 
@@ -295,3 +295,9 @@ def no_overrides(chk, crate, rule, what, trait, self_re, required, tolerated=())
                kind="unmodelled-override", sample={"impl": what, "methods": ms})
         n += 1
     return n
+
+
+def norm_of(p):
+    """normaliser resolving the locals of this path (its own frame and the frames of inlined callees)"""
+    raw = getattr(p, "raw", p)
+    return nf.Norm(env=getattr(raw, "env", None), envs=getattr(raw, "envs", None))
